@@ -26,7 +26,8 @@
     * `std::mem::take(&mut place)` yields the old value and leaves `Default::default()` in the place
       (`[]` for `Vec`, `0` for integers, `false`, `none`);  `x.into()` / `Bytes::from(x)` from `Vec<u8>` to
       `Bytes`, `.to_vec()`, `.clone()` on the supported types are the identity on the representation;
-    * the `octets` cursor types are replaced by the by-value model in section "octets" below;
+    * `std::io::Error` is the one-point type `IoError` (external types are mapped by a table in the
+      translator's manifest; their content is never inspected by translated code);
     * the translator itself (that it emits the primitive that belongs to each construct) and
       `syn`'s parser.
   Everything else — that the generated definitions agree with the hand-written model — is proved in
@@ -34,6 +35,11 @@
 -/
 import RenetVerif.Base.Res
 namespace RenetVerif.RustSem
+
+/-- `std::io::Error`: an opaque value (its content is never inspected by translated code) -/
+inductive IoError where
+  | opaque
+  deriving Repr, DecidableEq
 
 /-! ### control flow: a statement either yields a value, `return`s early, `Err`s, or panics -/
 
